@@ -29,6 +29,7 @@ ClmFields(ms) == { <<"count", 56>> } \cup UNION { { <<"entry.offset", 60 + 16 * 
 Old(img, off) == img[off + 1] + 256 * img[off + 2] + 65536 * img[off + 3]         \* the bases are small
 ClmBases == << << [name |-> <<116,49>>, data |-> <<11,12,13,14,15>>], [name |-> <<84,50,95,108,111,110,103,56>>, data |-> <<21,22>>] >>,
                << [name |-> <<97>>, data |-> <<>>], [name |-> <<98>>, data |-> <<31,32,33>>], [name |-> <<99,99>>, data |-> <<41,42,43,44>>] >>,
+               << [name |-> <<97>>, data |-> <<1,2,3>>], [name |-> <<122,122>>, data |-> <<>>] >>,         \* an empty member at the very end of the file
                <<>> >>
 \* two call scripts per image: members in ascending and in descending order, so that a refused call is followed by calls on
 \* other (intact) members in both directions
